@@ -72,6 +72,18 @@ def adminOp (op : String) (a : List Int) : Option String :=
       | some o => some (showResB ((configure c flags.toNat o).map fun (c', f') => s!"{showCfg c'} {f'}"))
       | none => some "bad-args"
     | _ => some "bad-args"
+  | "adm.ixcfg" =>
+    -- <cfg 33> flags maxInit maxMaint <opt 56> <entries 10 x 4>
+    match parseCfg a with
+    | some (c, flags :: mi :: mm :: rest) =>
+      match parseOpt (rest.take 56), parseEntries (rest.drop 56) with
+      | some o, some es => some (showResB ((ixConfigureBank c flags.toNat es mi mm o).map fun (c', f') => s!"{showCfg c'} {f'}"))
+      | _, _ => some "bad-args"
+    | _ => some "bad-args"
+  | "adm.u32basis" =>
+    match a with
+    | [v] => some (toString (u32ToBasis v))
+    | _ => some "bad-args"
   | "adm.emode" =>
     match a with
     | li :: lm :: mi :: mm :: rest =>
